@@ -37,7 +37,7 @@ package hotstuff
 //@ pure func setlen(s IDSet) int
 //@ pure func setmem(s IDSet, id ID) bool
 //@ pure func blockcontent(b *Block) int
-//@ pure func viewcontent(v View) int
+//@ pure func viewcontent(v View) int = abytes(aput(0, 0, 8, v))
 
 //@ interface QuorumSignature.Participants
 //@   ensures result == parts(self) && result != nil
@@ -51,9 +51,11 @@ package hotstuff
 // are part of it, so a block with another batch has other bytes-to-sign.
 //@ pure func qcbyte(qc QuorumCert, i int) int
 //@ pure func qcblen(qc QuorumCert) int
-//@ func (QuorumCert).ToBytes
-//@   trusted view, hash and signature bytes of the certificate: a function of the certificate
-//@   ensures fresh(result) && len(result) == qcblen(qc) && qcblen(qc) >= 0 && (forall i int :: {result[i]} 0 <= i && i < len(result) ==> result[i] == qcbyte(qc, i))
+//@ func (QuorumCert).ToBytes property C02,C06
+//@   ensures [function-of] fresh(result) && len(result) == qcblen(qc) && qcblen(qc) >= 0 && (forall i int :: {result[i]} 0 <= i && i < len(result) ==> result[i] == qcbyte(qc, i))
+//@   opt trusted-posts function-of
+//@   ensures [fresh] fresh(result)
+//@   ensures [layout-length] (qc.signature == nil ==> len(result) == 40) && (qc.signature != nil ==> len(result) == 40 + sigbyteslen(qc.signature))
 //@   modifies alloc
 //@ func (*Block).ToBytes property C06,C02
 //@   requires b != nil
@@ -64,8 +66,12 @@ package hotstuff
 //@   ensures [layout-length] len(result) == 32 + 4 + 8 + clientpb.batchblen(b.batch) + qcblen(b.cert) + 8
 //@   ensures [batch-is-signed] forall k int :: {result[k]} 44 <= k && k < 44 + clientpb.batchblen(b.batch) ==> result[k] == clientpb.batchbyte(b.batch, k - 44)
 //@   ensures [cert-is-signed] forall k int :: {result[k]} 44 + clientpb.batchblen(b.batch) <= k && k < 44 + clientpb.batchblen(b.batch) + qcblen(b.cert) ==> result[k] == qcbyte(b.cert, k - 44 - clientpb.batchblen(b.batch))
-//@ func (View).ToBytes
-//@   trusted little-endian encoding of the view; a function of the view
+// ID.ToBytes / View.ToBytes: exactly the little-endian bytes of the value, in a fresh slice.
+//@ pure func idcontent(id ID) int = abytes(aput(0, 0, 4, id))
+//@ func (ID).ToBytes property C08
+//@   ensures content(result) == idcontent(id) && len(result) == 4 && fresh(result)
+//@   modifies alloc
+//@ func (View).ToBytes property C02,C08
 //@   ensures content(result) == viewcontent(v) && len(result) == 8 && fresh(result)
 //@   modifies alloc
 
